@@ -52,6 +52,42 @@ def has(fs, pattern, truth=True):
     return any(tv is truth and re.fullmatch(pattern, a) for a, tv in fs)
 
 
+def _assigned(fn, pred):
+    """Names of locals assigned (Assign / for target) from a value satisfying pred(value_ast)."""
+    out = []
+    for n in walk_no_nested(fn):
+        if isinstance(n, ast.Assign) and len(n.targets) == 1 and isinstance(n.targets[0], ast.Name) and pred(n.value):
+            out.append(n.targets[0].id)
+    return out
+
+
+def group_roles(gfn):
+    """Locals of validate_group by role (independent of how they are spelled)."""
+    r = {}
+    order = _assigned(gfn, lambda v: isinstance(v, ast.DictComp) and "enumerate(" in unparse(v.generators[0].iter))
+    fields = _assigned(gfn, lambda v: isinstance(v, ast.DictComp) and "enumerate(" not in unparse(v.generators[0].iter))
+    r["ORDER"] = order[0] if order else "?"
+    r["FIELDS"] = fields[0] if fields else "?"
+    ordv = _assigned(gfn, lambda v: isinstance(v, ast.Subscript) and unparse(v.value) == r["ORDER"])
+    r["ORD"] = ordv[0] if ordv else "?"
+    prev = [n for n in _assigned(gfn, lambda v: unparse(v) == r["ORD"])]
+    r["PREV"] = prev[0] if prev else "?"
+    first = [n for n in _assigned(gfn, lambda v: isinstance(v, ast.Constant) and v.value is True) if n in _assigned(gfn, lambda v: isinstance(v, ast.Constant) and v.value is False)]
+    r["FIRST"] = first[0] if first else "?"
+    return r
+
+
+def message_roles(fn):
+    r = {}
+    sm = _assigned(fn, lambda v: unparse(v).startswith("self._messages_types[") or unparse(v) == "self._header")
+    r["SM"] = sm[0] if sm else "?"
+    r["REQ"] = "?"
+    for n in walk_no_nested(fn):
+        if isinstance(n, ast.For) and unparse(n.iter) == f"{r['SM']}.required.items()" and isinstance(n.target, ast.Tuple) and len(n.target.elts) == 2:
+            r["REQ"] = unparse(n.target.elts[1])
+    return r
+
+
 def run(ctx):
     repo = ctx.repo
     res = Resolver(repo)
@@ -67,10 +103,14 @@ def run(ctx):
 
     # ------------------------------------------------------------------ rule 1
     n1 = 0
+    roles_g = group_roles(repo.func(GROUP))
+    roles_v = message_roles(repo.func(VALIDATE))
+    roles_h = message_roles(repo.func(HEADER))
+    req_names = {VALIDATE: roles_v["REQ"], HEADER: roles_h["REQ"], GROUP: "?"}
     for q in (VALIDATE, HEADER, GROUP):
         g = graphs[q]
         for n, exc, fs in raises_of(g):
-            if not (has(fs, r"\w+\.tag not in \w+") and (has(fs, r"req") or has(fs, r"self\.required\[\w+\]"))):
+            if not (has(fs, r"\w+\.tag not in \w+") and (has(fs, re.escape(req_names[q])) or has(fs, r"self\.required\[\w+\]"))):
                 continue
             n1 += 1
             only_fields = has(fs, r"isinstance\(\w+, SchemaField\)")
@@ -89,23 +129,27 @@ def run(ctx):
     def any_raise(rs, pred):
         return any(exc == "FIXMessageError" and pred(fs) for n, exc, fs in rs)
 
+    ORDER, FIELDS, ORD, PREV, FIRST = (roles_g[k] for k in ("ORDER", "FIELDS", "ORD", "PREV", "FIRST"))
+    SM = roles_v["SM"]
+    if "?" in (ORDER, FIELDS, ORD, PREV, FIRST, SM, roles_v["REQ"], roles_h["REQ"]):
+        raise AnalysisError(f"validator locals not recognised by role: group {roles_g}, message {roles_v}, header {roles_h}")
     matrix = {
         "unknown tag": (any_raise(rv, lambda fs: has(fs, r"\w+ not in self\._tag2field")),
-                        any_raise(rg, lambda fs: has(fs, r"\w+ not in tag_order") or has(fs, r"\w+ not in tag_fields"))),
-        "tag not allowed here": (any_raise(rv, lambda fs: has(fs, r"\w+ not in schema_msg")),
-                                 any_raise(rg, lambda fs: has(fs, r"\w+ not in tag_order") or has(fs, r"\w+ not in tag_fields"))),
+                        any_raise(rg, lambda fs: has(fs, rf"\w+ not in {ORDER}") or has(fs, rf"\w+ not in {FIELDS}"))),
+        "tag not allowed here": (any_raise(rv, lambda fs: has(fs, rf"\w+ not in {SM}")),
+                                 any_raise(rg, lambda fs: has(fs, rf"\w+ not in {ORDER}") or has(fs, rf"\w+ not in {FIELDS}"))),
         "field given as group": (any_raise(rv, lambda fs: has(fs, r"isinstance\(\w+, SchemaField\)") and has(fs, r"\w+\.is_group\(\w+\)")),
                                  any_raise(rg, lambda fs: has(fs, r"isinstance\(\w+, SchemaField\)") and has(fs, r"\w+\.is_group\(\w+\)"))),
         "group given as field": (any_raise(rv, lambda fs: has(fs, r"\w+\.is_group\(\w+\)", False) and (has(fs, r"isinstance\(\w+, SchemaGroup\)") or has(fs, r"isinstance\(\w+, SchemaField\)", False))),
                                  any_raise(rg, lambda fs: has(fs, r"\w+\.is_group\(\w+\)", False) and (has(fs, r"isinstance\(\w+, SchemaGroup\)") or has(fs, r"isinstance\(\w+, SchemaField\)", False)))),
         "value check": (any(has(fs, r"isinstance\(\w+, SchemaField\)") and not has(fs, r"\w+\.is_group\(\w+\)") for n, c, fs in cv_val),
                         any(has(fs, r"isinstance\(\w+, SchemaField\)") and not has(fs, r"\w+\.is_group\(\w+\)") for n, c, fs in cg_val)),
-        "required member missing": (any_raise(rv, lambda fs: has(fs, r"\w+\.tag not in \w+") and has(fs, r"req")),
+        "required member missing": (any_raise(rv, lambda fs: has(fs, r"\w+\.tag not in \w+") and has(fs, re.escape(roles_v["REQ"]))),
                                     any_raise(rg, lambda fs: has(fs, r"\w+\.tag not in \w+") and has(fs, r"self\.required\[\w+\]"))),
         "recursion into groups": (any(has(fs, r"\w+\.is_group\(\w+\)", False) is False for n, c, fs in cv_grp) and bool(cv_grp),
                                   any(True for n, c, fs in cg_grp if unparse(c.func.value) != "self") and bool(cg_grp)),
-        "member order": (None, any_raise(rg, lambda fs: has(fs, r"prev_tag > ord_idx") or has(fs, r"ord_idx < prev_tag"))),
-        "first member present": (None, any_raise(rg, lambda fs: has(fs, r"has_first_tag", False))),
+        "member order": (None, any_raise(rg, lambda fs: has(fs, rf"{PREV} > {ORD}") or has(fs, rf"{ORD} < {PREV}"))),
+        "first member present": (None, any_raise(rg, lambda fs: has(fs, re.escape(FIRST), False))),
         "unknown message type": (any_raise(rv, lambda fs: has(fs, r"msg\.msg_type not in self\._messages_types")), None),
     }
     for cell, (m_ok, g_ok) in matrix.items():
@@ -136,22 +180,28 @@ def run(ctx):
                      "(e.g. a cache of earlier verdicts that ignores per-tag special cases)", loc(repo.func(q)), g.describe(bad or [])[-6:])
     # the order bookkeeping that makes the order / first-member cells meaningful
     gfn = repo.func(GROUP)
-    upd = [n for n in gg.nodes if n.kind == "stmt" and isinstance(n.ast, ast.Assign) and unparse(n.ast.targets[0]) == "prev_tag" and unparse(n.ast.value) == "ord_idx"]
-    first = [n for n in gg.nodes if n.kind == "stmt" and isinstance(n.ast, ast.Assign) and unparse(n.ast.targets[0]) == "has_first_tag" and unparse(n.ast.value) == "True"]
+    upd = [n for n in gg.nodes if n.kind == "stmt" and isinstance(n.ast, ast.Assign) and unparse(n.ast.targets[0]) == PREV and unparse(n.ast.value) == ORD]
+    first = [n for n in gg.nodes if n.kind == "stmt" and isinstance(n.ast, ast.Assign) and unparse(n.ast.targets[0]) == FIRST and unparse(n.ast.value) == "True"]
     ok = bool(upd) and all(not has(path_facts(gg, n.id), r"isinstance\(\w+, Schema\w+\)") for n in upd)
     ctx.instance(R2, "validate_group[previous index updated for every member]", ok,
-                 "prev_tag is not updated to the current member's index for every member kind: the order test compares with a stale index", loc(gfn))
-    ok = bool(first) and all(has(path_facts(gg, n.id), r"ord_idx == 0") for n in first)
-    ctx.instance(R2, "validate_group[first member flag only for index 0]", ok, "has_first_tag is set for a member that is not the first of the group", loc(gfn))
-    resets = [n for n in gg.nodes if n.kind == "stmt" and isinstance(n.ast, ast.Assign) and unparse(n.ast.targets[0]) in ("prev_tag", "has_first_tag")
+                 "the previous-index local is not updated to the current member's index for every member kind: the order test compares with a stale index", loc(gfn))
+    ok = bool(first) and all(has(path_facts(gg, n.id), rf"{ORD} == 0") for n in first)
+    ctx.instance(R2, "validate_group[first member flag only for index 0]", ok, "the first-member flag is set for a member that is not the first of the group", loc(gfn))
+    resets = [n for n in gg.nodes if n.kind == "stmt" and isinstance(n.ast, ast.Assign) and unparse(n.ast.targets[0]) in (PREV, FIRST)
               and unparse(n.ast.value) in ("-1", "False")]
     loops = [n for n in walk_no_nested(gfn) if isinstance(n, ast.For)]
     inner_ok = len(resets) >= 2 and all(any(r.ast in lp.body for lp in loops) for r in resets)
-    ctx.instance(R2, "validate_group[order state reset per item]", inner_ok, "prev_tag / has_first_tag are not reset for every group item", loc(gfn))
+    ctx.instance(R2, "validate_group[order state reset per item]", inner_ok, "the previous-index / first-member locals are not reset for every group item", loc(gfn))
     # tag_order enumerates the members in declaration order
-    decl = [n for n in walk_no_nested(gfn) if isinstance(n, ast.Assign) and unparse(n.targets[0]) == "tag_order"]
-    ok = len(decl) == 1 and isinstance(decl[0].value, ast.DictComp) and "enumerate(self.members.values())" in unparse(decl[0].value) and ".tag: i" in unparse(decl[0].value).replace("f.tag: i", ".tag: i")
-    ctx.instance(R2, "validate_group[order index = declaration order]", ok, "tag_order is not {member.tag: position in the declared member list}", loc(gfn))
+    decl = [n for n in walk_no_nested(gfn) if isinstance(n, ast.Assign) and unparse(n.targets[0]) == ORDER]
+    ok = False
+    if len(decl) == 1 and isinstance(decl[0].value, ast.DictComp):
+        dc = decl[0].value
+        gen = dc.generators[0]
+        if unparse(gen.iter) == "enumerate(self.members.values())" and isinstance(gen.target, ast.Tuple) and len(gen.target.elts) == 2 and not gen.ifs:
+            i_n, f_n = (unparse(e) for e in gen.target.elts)
+            ok = unparse(dc.key) == f"{f_n}.tag" and unparse(dc.value) == i_n
+    ctx.instance(R2, "validate_group[order index = declaration order]", ok, "the order index is not {member.tag: position in the declared member list}", loc(gfn))
 
     # ------------------------------------------------------------------ rule 3
     error_discipline(ctx, R3, repo, res, graphs)
@@ -266,8 +316,8 @@ def error_discipline(ctx, R3, repo, res, graphs):
                     sib = _sibling_dicts(fn, d)
                     wanted = {(f"{idx} in {k}", True) for k in sib} | {(f"{idx} not in {k}", False) for k in sib}
                     ok, w = guarded(g, node.id, node.ast, x, wanted, [idx])
-                    if not ok and d.startswith("schema_msg"):
-                        ok, w = guarded(g, node.id, node.ast, x, {(f"{idx} not in schema_msg", False), (f"{idx} in schema_msg", True)}, [idx])
+                    if not ok:
+                        ok, w = guarded(g, node.id, node.ast, x, {(f"{idx} not in {d}", False), (f"{idx} in {d}", True)}, [idx])
                     ctx.instance(R3, f"{q}[{d}[{idx}]]", ok,
                                  f"`{d}[{idx}]` in {q} is keyed by message data without a dominating membership test: KeyError instead of FIXMessageError", loc(x),
                                  g.describe(w or [])[-5:])
@@ -333,37 +383,43 @@ def _sibling_dicts(fn, d):
 
 def declaration_order(ctx, R4, repo, res):
     pc = repo.func("FIXSchema._parse_component")
-    src = unparse(pc)
     fresh = any(isinstance(c, ast.Call) and unparse(c.func) == "SchemaComponent" for c in walk_no_nested(pc))
     ctx.instance(R4, "_parse_component[fresh container per attempt]", fresh,
                  "_parse_component does not build a fresh SchemaComponent for each attempt: members added by a failed attempt are added again", loc(pc))
     g = CFG(pc)
+    comp = _assigned(pc, lambda v: isinstance(v, ast.Call) and unparse(v.func).endswith("_parse_msg_set"))
+    comp = comp[0] if comp else "?"
     regs = [n for n in g.nodes if n.kind == "stmt" and isinstance(n.ast, ast.Assign) and unparse(n.ast.targets[0]).startswith("self._components[")]
-    ok = bool(regs) and all(has(path_facts(g, n.id), r"component") for n in regs)
+    ok = bool(regs) and all(has(path_facts(g, n.id), re.escape(comp)) and unparse(n.ast.value) == comp for n in regs)
     ctx.instance(R4, "_parse_component[registers only a completely resolved component]", ok,
                  "a component is registered although _parse_msg_set reported unresolved references: later users merge a partial member list", loc(pc))
     ms = repo.func("FIXSchema._parse_msg_set")
     mg = CFG(ms)
+    flags = [n for n in _assigned(ms, lambda v: isinstance(v, ast.Constant) and v.value is True) if n in _assigned(ms, lambda v: isinstance(v, ast.Constant) and v.value is False)]
+    flag = flags[0] if flags else "?"
     rets = [n for n in mg.nodes if n.kind == "stmt" and isinstance(n.ast, ast.Return)]
-    flag_sets = [n for n in mg.nodes if n.kind == "stmt" and isinstance(n.ast, ast.Assign) and unparse(n.ast.targets[0]) == "has_circular_refs" and unparse(n.ast.value) == "True"]
-    ok = len(flag_sets) >= 2 and any(unparse(r.ast.value) == "None" and has(path_facts(mg, r.id), r"has_circular_refs") for r in rets)
+    flag_sets = [n for n in mg.nodes if n.kind == "stmt" and isinstance(n.ast, ast.Assign) and unparse(n.ast.targets[0]) == flag and unparse(n.ast.value) == "True"]
+    ok = len(flag_sets) >= 2 and any(unparse(r.ast.value) == "None" and has(path_facts(mg, r.id), re.escape(flag)) for r in rets)
     ctx.instance(R4, "_parse_msg_set[unresolved reference => None]", ok,
                  "_parse_msg_set does not report an unresolved component / group reference to its caller", loc(ms))
-    # a missing component is detected before it is looked up
     lookups = [n for n in mg.nodes if n.kind == "stmt" and "self._components[" in unparse(n.ast)]
     ok = bool(lookups) and all(has(path_facts(mg, n.id), r".+ not in self\._components", False) for n in lookups)
     ctx.instance(R4, "_parse_msg_set[component looked up only when declared]", ok, "a referenced component is looked up without the 'already parsed' test: KeyError for forward references", loc(ms))
     pf = repo.func("FIXSchema._parse")
     pg = CFG(pf)
-    whiles = [n for n in pg.nodes if n.kind == "test" and unparse(n.ast) == "all_components"]
+    pending = _assigned(pf, lambda v: isinstance(v, ast.ListComp) and "components" in unparse(v))
+    pending = pending[0] if pending else "?"
+    cnts = [n for n in _assigned(pf, lambda v: unparse(v) == f"len({pending})")]
+    whiles = [n for n in pg.nodes if n.kind == "test" and unparse(n.ast) == pending]
     msgs = [n for n in pg.nodes if n.kind == "stmt" and "self._parse_message(" in unparse(n.ast)]
-    raises = [n for n in pg.nodes if n.kind == "stmt" and isinstance(n.ast, ast.Raise) and has(path_facts(pg, n.id), r"len\(all_components\) == prev_cnt")]
+    raises = [n for n in pg.nodes if n.kind == "stmt" and isinstance(n.ast, ast.Raise) and any(has(path_facts(pg, n.id), rf"len\({pending}\) == {c}") for c in set(cnts))]
     ok = bool(whiles) and bool(msgs) and all(pg.dominated_by(m.id, whiles[0].id, "false", exc=False) or not pg.reaches(pg.entry, m.id, avoid={whiles[0].id}, exc=False) for m in msgs)
     ctx.instance(R4, "_parse[messages after the component fixpoint]", ok, "messages are parsed before every component is resolved", loc(pf))
     ctx.instance(R4, "_parse[no progress => error]", bool(raises), "the deferred-resolution loop has no 'no progress' exit: a truly circular dictionary loops forever", loc(pf))
-    upd = [n for n in pg.nodes if n.kind == "stmt" and isinstance(n.ast, ast.Assign) and unparse(n.ast.targets[0]) == "prev_cnt" and "len(all_components)" in unparse(n.ast.value)]
-    ctx.instance(R4, "_parse[progress counter updated]", len(upd) >= 2, "prev_cnt is not updated after a round that made progress: the next round is taken for 'no progress'", loc(pf))
+    prog = [c for c in set(cnts) if any(has(path_facts(pg, n.id), rf"len\({pending}\) == {c}") for n in raises)]
+    upd = [n for n in pg.nodes if n.kind == "stmt" and isinstance(n.ast, ast.Assign) and prog and unparse(n.ast.targets[0]) == prog[0] and unparse(n.ast.value) == f"len({pending})"]
+    ctx.instance(R4, "_parse[progress counter updated]", len(upd) >= 2, "the progress counter is not updated after a round that made progress: the next round is taken for 'no progress'", loc(pf))
     hdr = [n for n in pg.nodes if n.kind == "stmt" and "self._parse_header(" in unparse(n.ast)]
-    comp = [n for n in pg.nodes if n.kind == "stmt" and "self._parse_component(" in unparse(n.ast)]
-    if hdr and comp and not pg.reaches(comp[0].id, hdr[0].id, exc=False):
+    comp_n = [n for n in pg.nodes if n.kind in ("stmt", "test") and "self._parse_component(" in unparse(n.ast)]
+    if hdr and comp_n and not pg.reaches(comp_n[0].id, hdr[0].id, exc=False):
         ctx.note("the header is parsed before the components: a header that references a component would be stored as None (no bundled dictionary has one)")
